@@ -15,7 +15,9 @@ Decided:
          the werkzeug debugger, is the one table entry); reraise_uncaught defaults to falsy;
   R08.d  a failed request leaves no trace: no function reachable from Application.__call__ in the core
          modules stores into a shared object (shared with C12).
-  R08.e  the error serialisers never use error text as a format template;
+  R08.e  the serialisers the fallback renderer shares with the primary renderer cannot raise on error data: no error
+         text used as a format template; html_escape only on text or as an attempt; every JSON encoding goes through
+         a total encoder (its hook for unknown values returns text instead of raising TypeError);
   R08.f  URL converters run under a handler (conversion failure = no match);
   R08.g  no strict bytes<->text conversion (``.decode(codec)`` without an errors argument) on the part of the
          request path that no handler covers: the call-graph closure from Application.__call__ through call
